@@ -733,8 +733,12 @@ pub trait AutoMerge: RemoteSyncHandler {
     async fn rollback_rewind(
         &self,
         log_type: &EventLogType,
-        records: Vec<EventRecord>,
+        mut records: Vec<EventRecord>,
     ) -> Result<(), <Self as RemoteSyncHandler>::Error> {
+        // Rewind yields the discarded records newest first, they
+        // must be appended again in their original order
+        records.reverse();
+
         let account = self.account();
         let account = account.lock().await;
         match log_type {
